@@ -977,3 +977,236 @@ def normalize(tree):
     tree._dropped_helpers = dropped
     ast.fix_missing_locations(tree)
     return n
+
+
+# ---------------------------------------------------------------------------
+# canonical kernel parameter names (whole package)
+# ---------------------------------------------------------------------------
+
+def _kernel_defs(tree):
+    return {n.name: n for n in tree.body if isinstance(n, ast.FunctionDef) and _is_njit(n)}
+
+
+def _imports_of(tree):
+    """local name -> (module short name, original name) for `from sketchnu.x import y [as z]` / `from .x import y`."""
+    out = {}
+    for n in tree.body:
+        if isinstance(n, ast.ImportFrom) and n.module:
+            short = n.module.split(".")[-1]
+            for a in n.names:
+                out[a.asname or a.name] = (short, a.name)
+    return out
+
+
+def _role_of_arg(a, fn_params):
+    """Role name an argument expression gives to the parameter that receives it, or None."""
+    while isinstance(a, ast.Call) and len(a.args) == 1 and not a.keywords and (
+            (isinstance(a.func, ast.Name) and a.func.id in _PURE_CALLS) or
+            (isinstance(a.func, ast.Attribute) and isinstance(a.func.value, ast.Name) and a.func.value.id in ("np", "numpy"))):
+        a = a.args[0]
+    if isinstance(a, ast.Attribute) and isinstance(a.value, ast.Name):
+        return a.attr if a.value.id == "self" else "other_%s" % a.attr
+    if isinstance(a, ast.Name) and a.id in fn_params:
+        return a.id
+    return None
+
+
+def canonicalise_kernel_params(trees):
+    """A kernel parameter whose name says nothing about its role is renamed to the role its call sites give it.
+
+    The rules identify most kernel parameters through the binding at the Python call sites (`_add(self.lhh, ...)`), but several read
+    a parameter by the name the pinned tree uses (`value`, `ngram`, `key_len`, ...).  So that a consistent renaming of a kernel's
+    parameters changes no verdict, each kernel parameter p at position i is renamed to the role name r all its call sites agree on
+    (`self.X` -> X, `other.X` -> other_X, a caller's own parameter -> its name), provided that p is *foreign*: p is not the role name
+    of any position of this kernel.  A parameter called `width` that receives `self.depth` is therefore left alone -- that is
+    evidence of swapped arguments and rule `bind` reports it."""
+    kernels = {}      # (short, name) -> node
+    for short, tree in trees.items():
+        for name, node in _kernel_defs(tree).items():
+            kernels[(short, name)] = node
+
+    def resolve(short, tree, name, imports):
+        if (short, name) in kernels:
+            return (short, name)
+        if name in imports and (imports[name][0], imports[name][1]) in kernels:
+            return (imports[name][0], imports[name][1])
+        return None
+
+    for _round in range(3):
+        roles = {}     # kernel key -> list (per position) of sets of role names
+        for short, tree in trees.items():
+            imports = _imports_of(tree)
+            for fn in ast.walk(tree):
+                if not isinstance(fn, ast.FunctionDef):
+                    continue
+                caller_is_kernel = _is_njit(fn)
+                fparams = {a.arg for a in fn.args.args + fn.args.kwonlyargs} - {"self"}
+                for c in ast.walk(fn):
+                    if not (isinstance(c, ast.Call) and isinstance(c.func, ast.Name)):
+                        continue
+                    key = resolve(short, tree, c.func.id, imports)
+                    if key is None or kernels[key] is fn:
+                        continue
+                    if any(isinstance(a, ast.Starred) for a in c.args) or c.keywords:
+                        continue
+                    slots = roles.setdefault(key, [dict(py=set(), k=set()) for _ in kernels[key].args.args])
+                    for i, a in enumerate(c.args):
+                        if i >= len(slots):
+                            break
+                        r = _role_of_arg(a, fparams)
+                        slots[i]["k" if caller_is_kernel else "py"].add(r)
+        changed = False
+        for key, slots in roles.items():
+            node = kernels[key]
+            params = [a.arg for a in node.args.args]
+            want = []
+            for i, sl in enumerate(slots):
+                src = sl["py"] if sl["py"] else sl["k"]      # Python call sites decide; kernel call sites only pass roles on
+                want.append(next(iter(src)) if len(src) == 1 and None not in src else None)
+            roleset = {w for w in want if w}
+            if any(w and p != w and p in roleset for p, w in zip(params, want)):
+                continue        # a parameter carries the role name of another position: leave the evidence for rule `bind`
+            locals_ = {n.id for n in ast.walk(node) if isinstance(n, ast.Name) and isinstance(n.ctx, ast.Store)}
+            ren = {}
+            for p, w in zip(params, want):
+                if w and p != w and w not in locals_ and w not in params and w not in ren.values() and w.isidentifier():
+                    ren[p] = w
+            if not ren:
+                continue
+            for a in node.args.args:
+                if a.arg in ren:
+                    a.arg = ren[a.arg]
+            for n in ast.walk(node):
+                if isinstance(n, ast.Name) and n.id in ren:
+                    n.id = ren[n.id]
+            changed = True
+        if not changed:
+            break
+    # positions no call site names (fed from a caller's local): the published positional interface of the anchored kernels.  Only a
+    # foreign name is replaced, only for a kernel of the same module, name and arity.
+    for key, canon in ANCHOR_SIGNATURES.items():
+        node = kernels.get(key)
+        if node is None or len(node.args.args) != len(canon):
+            continue
+        params = [a.arg for a in node.args.args]
+        locals_ = {n.id for n in ast.walk(node) if isinstance(n, ast.Name) and isinstance(n.ctx, ast.Store)} - set(params)
+        ren = {}
+        for p_, c in zip(params, canon):
+            if p_ != c and p_ not in canon and c not in locals_ and c not in params and c not in ren.values():
+                ren[p_] = c
+        if ren:
+            for a in node.args.args:
+                if a.arg in ren:
+                    a.arg = ren[a.arg]
+            for n in ast.walk(node):
+                if isinstance(n, ast.Name) and n.id in ren:
+                    n.id = ren[n.id]
+
+
+ANCHOR_SIGNATURES = {
+    ("countmin", "_func"): ["base", "max_count", "num_reserved", "uint_max"],
+    ("countmin", "_funcprime"): ["base", "max_count", "num_reserved", "uint_max"],
+    ("countmin", "_counter2value"): ["counter", "num_reserved", "base"],
+    ("countmin", "_rand"): ["rand_batch", "rand_ptr"],
+    ("countmin", "_log_counter"): ["counter", "num_reserved", "uint_maxval", "base", "rand_nums", "rand_ptr", "value"],
+    ("heavyhitters", "_max_count"): ["lhh", "lhh_count", "key_lens", "width", "depth", "max_key_len", "key", "key_len"],
+    ("hyperloglog", "_linear_counting"): ["m", "n_zero"],
+    ("hyperloglog", "_estimation_function"): ["registers", "m", "alpha"],
+    ("hyperloglog", "_n_leading_zeros64"): ["x"],
+    ("hashes", "fasthash64"): ["key", "seed"],
+    ("hashes", "fasthash32"): ["key", "seed"],
+    ("hashes", "murmur3"): ["key", "seed"],
+}
+
+
+# ---------------------------------------------------------------------------
+# canonical names of the anchored private functions
+# ---------------------------------------------------------------------------
+
+def _process_targets(fn):
+    """[(target name, Process call node, inside a for loop?)] for `<ctx>.Process(target=<name>, ...)` in fn."""
+    out = []
+
+    def visit(node, in_for):
+        for ch in ast.iter_child_nodes(node):
+            if isinstance(ch, (ast.FunctionDef, ast.Lambda)):
+                continue
+            if isinstance(ch, ast.Call) and isinstance(ch.func, ast.Attribute) and ch.func.attr == "Process":
+                kw = {k.arg: k.value for k in ch.keywords}
+                if isinstance(kw.get("target"), ast.Name):
+                    out.append((kw["target"].id, ch, in_for, kw.get("args")))
+            visit(ch, in_for or isinstance(ch, (ast.For, ast.While)))
+    visit(fn, False)
+    return out
+
+
+def canonicalise_anchor_functions(trees):
+    """The properties anchor a few private functions by name (`_worker`, `_fill_queue`, `_merge_worker`, `_log_counter`, `_rand`,
+    `_counter2value`, `_find_base`).  When such a name is missing but exactly one function plays its role, that function is renamed
+    to the anchor name throughout the package (AST only), so that a consistent renaming of a private function changes no verdict."""
+    ren = {}       # (short, old) -> new
+
+    def have(short, name):
+        return any(isinstance(n, ast.FunctionDef) and n.name == name for n in trees[short].body)
+
+    def funcs(short):
+        return {n.name: n for n in trees[short].body if isinstance(n, ast.FunctionDef)}
+
+    if "helpers" in trees:
+        fs = funcs("helpers")
+        pa, pm = fs.get("parallel_add"), fs.get("parallel_merging")
+        if pa is not None:
+            for tgt, call, in_for, args in _process_targets(pa):
+                if tgt not in fs:
+                    continue
+                argnames = {x.id for x in ast.walk(args) if isinstance(x, ast.Name)} if args is not None else set()
+                role = "_fill_queue" if "items" in argnames else "_worker" if in_for else "_log_worker"
+                if tgt != role and not have("helpers", role):
+                    ren[("helpers", tgt)] = role
+        if pm is not None:
+            ts = {t for t, _, _, _ in _process_targets(pm) if t in fs}
+            if len(ts) == 1 and not have("helpers", "_merge_worker"):
+                t = next(iter(ts))
+                if t != "_merge_worker":
+                    ren[("helpers", t)] = "_merge_worker"
+    if "countmin" in trees:
+        fs = funcs("countmin")
+        ks = {n: f for n, f in fs.items() if _is_njit(f)}
+
+        def sig_text(f):
+            return " ".join(ast.unparse(d) for d in f.decorator_list)
+        cands = {
+            "_log_counter": [n for n, f in ks.items() if len(f.args.args) == 7 and "Tuple" in sig_text(f)],
+            "_rand": [n for n, f in ks.items() if len(f.args.args) == 2 and "Tuple" in sig_text(f)],
+            "_counter2value": [n for n, f in ks.items() if len(f.args.args) == 3 and sig_text(f).replace(" ", "").startswith("njit(float64(")],
+        }
+        fb = set()
+        for n in ast.walk(trees["countmin"]):
+            if isinstance(n, ast.Assign) and len(n.targets) == 1 and isinstance(n.targets[0], ast.Attribute) and n.targets[0].attr == "base" \
+                    and isinstance(n.value, ast.Call) and isinstance(n.value.func, ast.Name) and n.value.func.id in ks:
+                fb.add(n.value.func.id)
+        cands["_find_base"] = sorted(fb)
+        cands["_counter2value"] = [c for c in cands["_counter2value"] if c not in fb]
+        for role, cs in cands.items():
+            if not have("countmin", role) and len(cs) == 1 and cs[0] != role:
+                ren[("countmin", cs[0])] = role
+    if not ren:
+        return {}
+    for (short, old), new in ren.items():
+        for s2, tree in trees.items():
+            imports = _imports_of(tree)
+            local_names = {old} if s2 == short else {ln for ln, (ms, on) in imports.items() if ms == short and on == old}
+            if not local_names:
+                continue
+            for n in ast.walk(tree):
+                if isinstance(n, ast.FunctionDef) and n.name == old and s2 == short and n in tree.body:
+                    n.name = new
+                elif isinstance(n, ast.Name) and n.id in local_names:
+                    n.id = new
+                elif isinstance(n, ast.ImportFrom) and n.module and n.module.split(".")[-1] == short:
+                    for a in n.names:
+                        if a.name == old:
+                            a.name = new
+                            if a.asname in local_names:
+                                a.asname = None
+    return ren
